@@ -721,8 +721,17 @@ def run(run):
     try:
         for b in range(N_BATCHES[run.tier]):
             n = batch_size(rng, b)
+            backlog = (b == 1)
+            if backlog:
+                n = rng.randint(36, 40)
             fails = pick_fail_positions(rng, n, cover, b)
-            spec = make_batch(rng, g, b, n, fails, workers=4 if b == 0 else None, points=inj.points)
+            spec = make_batch(rng, g, b, n, fails, workers=4 if (b == 0 or backlog) else None, points=inj.points)
+            if backlog:
+                # status backlog: a burst of 36..40 jobs with the master's ORIGINAL 0.2 s poll — once the job queue is
+                # empty the master sleeps in its poll while the workers finish, so dozens of statuses wait at one tick
+                spec.update(poll_master=None, pacing=[0.0] * n, pacing_mode="burst", p_yield=0.0, slow=None, hot=[],
+                            poll_worker=0.001)
+                run.count("status_backlog_batches")
             only = os.environ.get("C15_ONLY")          # debugging aid: run only the named batch indices
             if only and str(b) not in only.split(","):
                 continue
